@@ -85,8 +85,13 @@ def eye (n : Nat) : Mat K := build n n fun i j => if i = j then 1 else 0
 def kron (A B : Mat K) : Mat K :=
   build (A.r * B.r) (A.c * B.c) fun i j => A.get (i / B.r) (j / B.c) * B.get (i % B.r) (j % B.c)
 
-/-- `Σ_{k<n} f k`, summed in increasing `k` -/
-def sumTo (n : Nat) (f : Nat → K) : K := (List.range n).foldl (fun acc k => acc + f k) 0
+/-- `acc + f k + f (k+1) + … + f (k+m-1)`, added in that order -/
+def sumFrom (f : Nat → K) : Nat → Nat → K → K
+  | 0, _, acc => acc
+  | m + 1, k, acc => sumFrom f m (k + 1) (acc + f k)
+
+/-- `Σ_{k<n} f k`, summed in increasing `k` starting from `0` -/
+def sumTo (n : Nat) (f : Nat → K) : K := sumFrom f n 0 0
 
 /-- `a.dot(&b)`.  (ndarray panics when `a.c ≠ b.r`; every product formed by the code below is between
 square matrices of the same size `2^n`, so that panic is not modelled.) -/
